@@ -144,6 +144,31 @@ def run(ck: Check, prog: Program) -> None:
         if not okc:
             ck.finding('CTX-SOURCE', cq + '.copy', 'copy drops a registration setting', 'pjrpc/server/dispatcher.py', cp.node.lineno if cp else 0,
                        f'a merged method must inject the context exactly as the original registration asked: {whyc}')
+    # ---- the context the application gets is the transport's request object: every integration handler that is handed the framework's
+    #      request / message object passes it to dispatch as `context` (a handler without such a parameter — flask's, which reads a
+    #      global proxy — has nothing to pass)
+    n_h = 0
+    for f_ in prog.iter_funcs():
+        if not f_.module.name.startswith('pjrpc.server.integration') or not isinstance(f_.node, (ast.FunctionDef, ast.AsyncFunctionDef)):
+            continue
+        dcalls = [x for x in walk_own(f_.node) if isinstance(x, ast.Call) and isinstance(x.func, ast.Attribute) and x.func.attr == 'dispatch'
+                  and 'dispatcher' in norm(x.func.value)]
+        if not dcalls:
+            continue
+        subjects = [p_.arg for p_ in f_.params if p_.arg not in ('self', 'cls', 'dispatcher') and not p_.arg.startswith('_')]
+        if not subjects:
+            continue
+        for dc in dcalls:
+            n_h += 1
+            cv = kwarg(dc, 'context', 1)
+            ok_c = cv is not None and dotted(cv) in subjects
+            ck.functions.add(f_.qualname)
+            ck.ob('CTX-SOURCE', f'{short(f_.qualname)}: the transport\'s request object is handed to dispatch as context', ok_c)
+            if not ok_c:
+                ck.finding('CTX-SOURCE', f_.qualname, 'dispatch called without the transport context', f_.module.rel, dc.lineno,
+                           f'`{norm(dc)[:80]}` does not pass {subjects} as `context`: methods registered with a context parameter receive None '
+                           f'instead of the request object of this integration')
+    ck.require('CTX-SOURCE', 'integration handlers that are given the transport request', n_h, 3)
     # ---- RESULT-PASSTHRU ------------------------------------------------------------------------
     from .common import dispatcher_program
     prog = dispatcher_program(prog)
